@@ -23,6 +23,17 @@ class _Blob:
     def __init__(self, shape):
         self.shape = tuple(shape)
 
+    @property
+    def size(self):
+        n = 1
+        for e in self.shape:
+            n = n * e
+        return n
+
+    @property
+    def ndim(self):
+        return len(self.shape)
+
 
 class _SetNp(models.NpShim):
     @staticmethod
